@@ -307,9 +307,22 @@ func replayRace(harness string, sites []report.Site, dir string) replayResult {
 // shortFn reduces an SSA or runtime function name to its last identifier (method or function
 // name without package, receiver, type arguments and closure suffixes).
 func shortFn(s string) string {
-	if i := strings.Index(s, "["); i >= 0 {
-		s = s[:i]
+	// drop type arguments [...] (possibly nested) wherever they occur
+	var sb strings.Builder
+	depth := 0
+	for _, r := range s {
+		switch {
+		case r == '[':
+			depth++
+		case r == ']':
+			if depth > 0 {
+				depth--
+			}
+		case depth == 0:
+			sb.WriteRune(r)
+		}
 	}
+	s = sb.String()
 	s = strings.TrimRight(s, ".0123456789")
 	for strings.Contains(s, "$") {
 		s = s[:strings.LastIndex(s, "$")]
